@@ -60,7 +60,14 @@ func alphaProbe(alphabet []byte) func(r *rand.Rand, present []string) string {
 		if len(present) == 0 {
 			return hexLit(randBytes(r, alphabet, 0, 4))
 		}
-		return hexLit(mutateBytes(r, unhex(pick(r, present)), alphabet))
+		k := unhex(pick(r, present))
+		if len(k) > 11 && r.Intn(2) == 0 {
+			// differ from a stored key only in bytes past the inline limit of a long shared run
+			c := append([]byte{}, k...)
+			c[10+r.Intn(len(c)-10)] = alphabet[r.Intn(len(alphabet))]
+			return hexLit(c)
+		}
+		return hexLit(mutateBytes(r, k, alphabet))
 	}
 }
 
@@ -99,6 +106,25 @@ func alphaUniverses() []universe {
 				return hexLit(append(base, randBytes(r, tails, 0, 3)...))
 			},
 			probe: alphaProbe([]byte("pqxyab12m")),
+		})
+	}
+	// U5: a few stems, each followed by a long run that every key below the stem shares (compressed paths well
+	// beyond the inline limit), then short tails and sometimes a second long run
+	for _, L := range []int{11, 14, 22} {
+		L := L
+		us = append(us, universe{
+			name: fmt.Sprintf("U5stems%d", L),
+			next: func(r *rand.Rand) string {
+				k := []byte(pick(r, []string{"s", "t", "st", "sx"}))
+				k = append(k, []byte(strings.Repeat("p", L))...)
+				k = append(k, pick(r, []byte("ab12")))
+				if r.Intn(2) == 0 {
+					k = append(k, []byte(strings.Repeat("m", pick(r, []int{3, 11, 13})))...)
+					k = append(k, randBytes(r, []byte("ab"), 0, 2)...)
+				}
+				return hexLit(k)
+			},
+			probe: alphaProbe([]byte("pmstxab12")),
 		})
 	}
 	// U4: wide fan-out at one or two levels
